@@ -27,6 +27,35 @@ pub struct Expected {
     pub hbfs: u64,
     pub layer_staves: Vec<(u64, u64)>,
     pub trigger_bits: Vec<u64>, // 20 counters in the documented order
+    /// detector name of the first RDH's system id (ALICE source-id table), None if unknown
+    pub system_name: Option<&'static str>,
+}
+
+/// ALICE detector source ids (O2 DAQ source-id table).
+pub fn system_name(id: u8) -> Option<&'static str> {
+    Some(match id {
+        3 => "TPC",
+        4 => "TRD",
+        5 => "TOF",
+        6 => "HMP",
+        7 => "PHS",
+        8 => "CPV",
+        10 => "MCH",
+        15 => "ZDC",
+        17 => "TRG",
+        18 => "EMC",
+        19 => "TST",
+        32 => "ITS",
+        33 => "FDD",
+        34 => "FT0",
+        35 => "FV0",
+        36 => "MFT",
+        37 => "MID",
+        38 => "DCS",
+        39 => "FOC",
+        255 => "Unloaded",
+        _ => return None,
+    })
 }
 
 pub const TRIGGER_FIELDS: [(&str, u32); 20] = [
@@ -78,6 +107,7 @@ pub fn expected(bytes: &[u8], filter: Option<Filter>, analysed: bool) -> Expecte
         hbfs,
         layer_staves,
         trigger_bits: trig,
+        system_name: system_name(walked[0].rdh.system_id),
     }
 }
 
@@ -106,13 +136,21 @@ pub fn compare_stats(st: &Value, e: &Expected) -> Option<(String, String)> {
     if arr(&r["fee_id"]) != e.fee_ids {
         return Some(("fee_id".into(), format!("fee_id = {:?}, expected first-seen order {:?}", arr(&r["fee_id"]), e.fee_ids)));
     }
-    if r["system_id"].as_str() != Some("ITS") {
-        return Some(("system_id".into(), format!("system_id = {}", r["system_id"])));
+    if r["system_id"].as_str() != e.system_name {
+        return Some(("system_id".into(), format!("system_id = {}, the first RDH's system id means {:?}", r["system_id"], e.system_name)));
+    }
+    if e.system_name != Some("ITS") {
+        // layer / stave pairs are an ITS statistic
+        return trigger_compare(r, e);
     }
     let ls: Vec<(u64, u64)> = r["its_stats"]["layer_staves_seen"].as_array().map(|a| a.iter().map(|p| (p[0].as_u64().unwrap_or(99), p[1].as_u64().unwrap_or(99))).collect()).unwrap_or_default();
     if ls != e.layer_staves {
         return Some(("layer_staves_seen".into(), format!("layer_staves_seen = {:?}, expected {:?}", ls, e.layer_staves)));
     }
+    trigger_compare(r, e)
+}
+
+fn trigger_compare(r: &Value, e: &Expected) -> Option<(String, String)> {
     for (i, (name, _)) in TRIGGER_FIELDS.iter().enumerate() {
         if r["trigger_stats"][*name].as_u64() != Some(e.trigger_bits[i]) {
             return Some((format!("trigger_stats.{name}"), format!("trigger_stats.{name} = {}, expected {}", r["trigger_stats"][*name], e.trigger_bits[i])));
@@ -238,6 +276,9 @@ fn run_case(c: &Case) -> Option<(String, String)> {
         if cell("RDH Version") != Some(e.rdh_version.to_string()) {
             return Some(("report:RDH Version".into(), format!("report shows RDH version {:?}, the input has {}", cell("RDH Version"), e.rdh_version)));
         }
+        if cell("System ID").as_deref() != e.system_name {
+            return Some(("report:System ID".into(), format!("report shows system {:?}, the first RDH's system id means {:?}", cell("System ID"), e.system_name)));
+        }
         if cell("Data Format") != Some(e.data_format.to_string()) {
             return Some(("report:Data Format".into(), format!("report shows data format {:?}, the input has {}", cell("Data Format"), e.data_format)));
         }
@@ -275,7 +316,7 @@ fn run_case(c: &Case) -> Option<(String, String)> {
                     }
                 }
             }
-            if got_ls != want_ls {
+            if e.system_name == Some("ITS") && got_ls != want_ls {
                 return Some(("report:Layers/Staves".into(), format!("report lists layer/stave pairs {:?}, the analysed packets carry {:?}", got_ls, want_ls)));
             }
         }
@@ -425,6 +466,18 @@ pub fn run(tier: Tier) -> i32 {
             cases.push(Case { label: format!("small-scope sequence {:?}", sq), bytes, mode, filter, errors: None, toml: si % 8 >= 4, stdin: si % 3 == 0 });
         }
     }
+    // 1c. every known detector system id in the first RDH: the name in the statistics file and in the report
+    for sys in [3u8, 4, 5, 6, 7, 8, 10, 15, 17, 18, 19, 32, 33, 34, 35, 36, 37, 38, 39, 255] {
+        let mut pk = gen::recognisable_pattern_stream(&[0, 1, 0], 900 + sys as u64);
+        for p in pk.iter_mut() {
+            p.rdh.system_id = sys;
+            p.rdh.stop_bit &= 1;
+        }
+        let bytes = stream::to_bytes(&pk);
+        for m in [vec!["check", "sanity"], vec!["view", "rdh"]] {
+            cases.push(Case { label: format!("system id {sys}"), bytes: bytes.clone(), mode: m, filter: None, errors: None, toml: sys % 2 == 1, stdin: false });
+        }
+    }
     // custom-check failures carry four-digit codes: they must appear in full among the distinct codes
     {
         let w = &witnesses()[0];
@@ -450,7 +503,7 @@ pub fn run(tier: Tier) -> i32 {
     rep.cov("evaluations", json!(cases.len()));
     rep.cov("distinct_nontrivial", json!(nontrivial));
     rep.cov("exhaustive", json!(true));
-    rep.cov("rule", json!("streams {arbitrary headers over 3 interleaved links with 1/5/12(big payloads, total > 2^16)/100/101(/201) packets; every RDH sequence of length <= 2 (quick) / 3 (thorough) over 48 symbols {2 links} x {2 FEE ids, independent of the link} x {stop 0/1} x {6 trigger words: none, all 20 counted bits, the even / odd halves, HB+orbit+TF, PhT+gap2}, modes / filters / formats / sources rotating; 6 conforming witnesses; witnesses with 1/3/21 RDH sanity faults} x 9 modes (5 checks, 3 views, filtered writing) x filters (none, present link/FEE/stave, absent link) x {JSON, TOML} x {file, stdin}; statistics file fields and report rows (Total RDHs, Total Errors, Links observed, FEE IDs seen, Run Trigger Type, RDH Version, Data Format, Total HBFs, Data size with its RDHs / Payloads parts, Layers/Staves, filter RDHs) vs the independent calculator. non-trivial = a filter is active or errors are expected"));
+    rep.cov("rule", json!("streams {arbitrary headers over 3 interleaved links with 1/5/12(big payloads, total > 2^16)/100/101(/201) packets; every RDH sequence of length <= 2 (quick) / 3 (thorough) over 48 symbols {2 links} x {2 FEE ids, independent of the link} x {stop 0/1} x {6 trigger words: none, all 20 counted bits, the even / odd halves, HB+orbit+TF, PhT+gap2}, modes / filters / formats / sources rotating; all 20 known detector system ids in the first RDH (name in statistics and report); 6 conforming witnesses; witnesses with 1/3/21 RDH sanity faults} x 9 modes (5 checks, 3 views, filtered writing) x filters (none, present link/FEE/stave, absent link) x {JSON, TOML} x {file, stdin}; statistics file fields and report rows (Total RDHs, Total Errors, Links observed, FEE IDs seen, Run Trigger Type, RDH Version, Data Format, Total HBFs, Data size with its RDHs / Payloads parts, Layers/Staves, filter RDHs) vs the independent calculator. non-trivial = a filter is active or errors are expected"));
     rep.sample(json!({"expected_fields": ["rdhs_seen", "rdhs_filtered", "payload_size", "links (sorted)", "fee_id (first seen)", "rdh_version", "data_format", "system_id", "run_trigger_type", "hbfs_seen", "layer_staves_seen", "trigger_stats.*", "total_errors", "unique_error_codes"]}));
     rep.assume("run trigger type: the raw value is compared, its textual description is not");
     rep.finish()
